@@ -45,6 +45,9 @@ def rule_error_isolation(ctx, p, cfg, rid="F3"):
                    and strip(strip(x[1])[2][0])[0] == "call" and strip(strip(x[1])[2][0])[1] == ds.callee for x in walk(a)):
                 okp = True
         r.require(okp, "err-recorded", fn=nl, detail="the Err payload of the appender call is pushed to the error list")
+        shr = _list_shrinkers(nl)
+        r.require(not shr, "error-list-returned-whole", fn=nl, site=(shr[0].at if shr else None), detail="calls that can drop or merge entries of a list in the delivery loop's function: %d" % len(shr),
+                  fail_detail="%s is applied in the delivery function: a recorded error can be dropped before it is returned" % (shr[0].callee if shr else ""))
         # the errors are returned as Err(list) when non-empty
         rets = q.ret_assignments(nl)
         r.require(any(q.classify_ret(e) == "err" for b, e in rets) and any(q.classify_ret(e) == "ok" for b, e in rets), "returns-collected-errors", fn=nl,
@@ -190,6 +193,10 @@ def run_cfg(ctx, p, cfg):
             rr = ll.reach(h.block, avoid=set(nb))
             r.require(not any(b in rr for b in ll.return_blocks()), "handler-loop-exits-by-exhaustion", fn=ll,
                       detail="every error is handed over (no early exit from the error loop)")
+            # the list is handed over whole: nothing removes, merges or skips entries between the delivery loop and the handler
+            shr = _list_shrinkers(ll)
+            r.require(not shr, "error-list-handed-over-whole", fn=ll, site=(shr[0].at if shr else None), detail="calls that can drop or merge entries of a list in Log::log: %d" % len(shr),
+                      fail_detail="Log::log calls %s on the returned error list before handing it to the handler: an appender's error can be dropped" % (shr[0].callee if shr else ""))
             # the handler comes from the same snapshot as the routing
             r.require(any(x[0] == "call" and x[1] == anchors.LOAD for x in walk(h.arg(0))), "handler-from-snapshot", fn=ll,
                       detail="handler taken from the loaded snapshot")
@@ -223,6 +230,22 @@ def run_cfg(ctx, p, cfg):
         r.require(ok, "reject-iff-level-gt-threshold", fn=f, detail=desc)
         allv = {e[2] for b, e in rets if e[0] == "agg"}
         r.require("Accept" not in allv and all(e[0] == "agg" for b, e in rets), "never-accepts", fn=f, detail="returned variants: %s" % sorted(allv))
+
+
+SHRINKERS = ("dedup", "dedup_by", "dedup_by_key", "retain", "retain_mut", "truncate", "pop", "remove", "swap_remove", "clear", "drain", "split_off", "extract_if", "set_len")
+ITER_DROPPERS = ("filter", "skip", "take", "step_by", "skip_while", "take_while", "dedup", "last", "nth")
+
+
+def _list_shrinkers(f):
+    out = []
+    for c in f.calls():
+        cal = c.callee or ""
+        m = cal.rsplit("::", 1)[-1]
+        if cal.startswith("alloc::vec::Vec::<T, A>::") and m in SHRINKERS:
+            out.append(c)
+        elif cal.startswith("core::iter::traits::iterator::Iterator::") and m in ITER_DROPPERS and any("Error" in t for t in c.t.get("arg_tys", [])[:1]):
+            out.append(c)
+    return out
 
 
 def _handler_field(p):
